@@ -852,6 +852,19 @@ def _pred_granularity(ctx, c, pol):
             ob = ctx.objs(a0.c[1], ("size", "val"))
             if any(o[0] == "parm" for o in oa) and (("this",) in ob):
                 return True
+        # std::div(nx, M).rem == 0   (directly, or through `const auto blocks = std::div(nx, M);`)
+        if a0.k == "MemberExpr" and a0.decl and a0.decl.get("n") == "rem" and a0.c and b0.k == "IntegerLiteral" and b0.get("v") == "0" and op == "==":
+            q = a0.c[0].strip_all()
+            if q.k == "DeclRefExpr" and q.decl and q.decl.get("k") == "local":
+                dq = _single_def(q)
+                q = dq.strip_all() if dq is not None else q
+            while q.k in ("CXXConstructExpr", "MaterializeTemporaryExpr", "ExprWithCleanups") and len(q.c) == 1:
+                q = q.c[0].strip_all()
+            if q.k == "CallExpr" and (q.callee or {}).get("qn") in ("std::div", "div", "std::ldiv", "ldiv") and len(q.call_args()) == 2:
+                oa = ctx.objs(q.call_args()[0], ("size", "val"))
+                ob = ctx.objs(q.call_args()[1], ("size", "val"))
+                if any(o[0] == "parm" for o in oa) and (("this",) in ob):
+                    return True
         # the same test written with a quotient:  (nx / M) * M == nx,  np * M == nx with np = nx / M
         if op == "==":
             oa = ctx.objs(a0, ("size", "val"))
